@@ -69,6 +69,8 @@ class Run:
         self.tree = os.path.join(self.scratch, "tree")
         self.gen = os.path.join(self.scratch, "gen")
         os.makedirs(self.gen)
+        self.gen_models = self.gen          # Gen_*.v used for per-run extracted models (switched to the reference on a broken obligation)
+        self.using_reference = False
         self.violations = []      # dicts: {sig, kind, detail, replay(dict)}
         self.known_hits = []
         self.obligations = []     # (name, discharged bool)
@@ -214,12 +216,61 @@ class Run:
                 first_failed = first_failed or ("%s:%s" % (f, failed or "?"))
         self.coq_log = log
         self._props = (props_dir, list(files), allok)
+        if allok and os.environ.get("VERIF_MKREF") and os.path.realpath(REPO) == "/repo":
+            self.save_reference()
+        if not allok:
+            self.fallback_to_reference()
         if allok and self.tier == "thorough" and not os.environ.get("VERIF_NO_COQCHK"):
             ok2, msg = self.coqchk()
             if not ok2:
                 allok, first_failed = False, "coqchk:" + (files[0] if files else "?")
                 log += "\n" + msg
         return allok, first_failed, log
+
+    # ---------------------------------------------------------------- reference constants (search after a broken obligation)
+    # When an obligation over the regenerated constants breaks, the regenerated constants are no longer known to describe a tree on
+    # which the theorems hold (the translator may simply not have recognised a rewritten statement).  Predictions made with them are
+    # then not evidence of anything.  For the SEARCH the model is therefore instantiated with the reference constants: the ones
+    # regenerated from the tree on which every obligation was last discharged (reference/, refreshed by VERIF_MKREF=1 on /repo).  A
+    # concrete violation reported in that situation means: the implementation deviates from the verified model / violates the spec
+    # instantiated with the constants the theorems were proved for - never: "the translator misread the source".
+    def save_reference(self):
+        ref = os.path.join(VERIF, "reference")
+        os.makedirs(os.path.join(ref, "gen"), exist_ok=True)
+        for f in glob.glob(os.path.join(self.scratch, "consts_*.tsv")) + glob.glob(os.path.join(self.scratch, "consts_*.json")):
+            shutil.copy(f, os.path.join(ref, os.path.basename(f)))
+        for f in glob.glob(os.path.join(self.gen, "*.v")):
+            shutil.copy(f, os.path.join(ref, "gen", os.path.basename(f)))
+        json.dump(dict((k, v) for k, v in self.consts.items() if isinstance(v, (dict, list, str, int, bool))), open(os.path.join(ref, "run_consts_%s.json" % self.prop), "w"), indent=1, default=str)
+
+    def fallback_to_reference(self):
+        ref = os.path.join(VERIF, "reference")
+        self.using_reference = True
+        if not os.path.isdir(ref):
+            self.notes.append("an obligation is broken and no reference constants are stored: model-side predictions use the regenerated constants")
+            return
+        n = 0
+        for f in glob.glob(os.path.join(ref, "consts_*.tsv")) + glob.glob(os.path.join(ref, "consts_*.json")):
+            if os.path.exists(os.path.join(self.scratch, os.path.basename(f))):     # only areas this run uses
+                shutil.copy(f, os.path.join(self.scratch, os.path.basename(f)))
+                n += 1
+        rc = os.path.join(ref, "run_consts_%s.json" % self.prop)
+        if os.path.exists(rc):
+            for area, val in json.load(open(rc)).items():
+                cur = self.consts.get(area)
+                if isinstance(cur, dict) and isinstance(val, dict):
+                    cur.clear(); cur.update(val)          # in place: checks hold on to the dict the translator returned
+                elif area in self.consts and not isinstance(cur, dict):
+                    self.consts[area] = val
+        # Gen_*.v for per-run extracted models (system, registry)
+        gref = os.path.join(self.scratch, "gen_ref")
+        os.makedirs(gref, exist_ok=True)
+        for f in glob.glob(os.path.join(ref, "gen", "*.v")):
+            if os.path.exists(os.path.join(self.gen, os.path.basename(f))):
+                shutil.copy(f, os.path.join(gref, os.path.basename(f)))
+        self.gen_models = gref
+        self.notes.append("an obligation over the regenerated constants is broken: the search instantiates the model with the reference constants "
+                          "(reference/, %d sidecar files), so a concrete violation means a deviation from the verified model, not a translator miss" % n)
 
     def coqchk(self, timeout=1500):
         """thorough tier: re-check the compiled property files and everything they depend on with Coq's independent checker;
